@@ -249,21 +249,30 @@ func (m *multiStreamListener) Acquire() (StreamListener, error) {
 		closeCh:  make(chan struct{}),
 		onCloseFunc: func() error {
 			m.mu.Lock()
-			defer m.mu.Unlock()
 			m.count--
-			if m.count == 0 {
+			idle := m.count == 0
+			if idle {
 				close(m.doneCh)
 				m.ln.Close()
 				m.ln = nil
-				if m.onCloseFunc != nil {
-					onCloseFunc := m.onCloseFunc
-					m.onCloseFunc = nil
-					return onCloseFunc()
-				}
+			}
+			m.mu.Unlock()
+			// Notify the owner without holding m.mu: the owner takes its own lock
+			// first and m.mu second (in Acquire), so calling it with m.mu held can
+			// deadlock against a concurrent Acquire.
+			if idle && m.onCloseFunc != nil {
+				return m.onCloseFunc()
 			}
 			return nil
 		},
 	}, nil
+}
+
+// idle reports whether the shared listener currently has no users.
+func (m *multiStreamListener) idle() bool {
+	m.mu.Lock()
+	defer m.mu.Unlock()
+	return m.count == 0
 }
 
 type multiPacketListener struct {
@@ -296,24 +305,24 @@ func (m *multiPacketListener) Acquire() (net.PacketConn, error) {
 		m.pc = pc
 		m.readCh = make(chan readRequest)
 		m.doneCh = make(chan struct{})
-		go func() {
+		go func(pc net.PacketConn, readCh <-chan readRequest, doneCh <-chan struct{}) {
 			buffer := make([]byte, serverUDPBufferSize)
 			for {
-				n, addr, err := m.pc.ReadFrom(buffer)
+				n, addr, err := pc.ReadFrom(buffer)
 				pkt := buffer[:n]
 				select {
-				case req := <-m.readCh:
+				case req := <-readCh:
 					n := copy(req.buffer, pkt)
 					req.respCh <- struct {
 						n    int
 						addr net.Addr
 						err  error
 					}{n, addr, err}
-				case <-m.doneCh:
+				case <-doneCh:
 					return
 				}
 			}
-		}()
+		}(m.pc, m.readCh, m.doneCh)
 	}
 
 	m.count++
@@ -323,20 +332,28 @@ func (m *multiPacketListener) Acquire() (net.PacketConn, error) {
 		closeCh:    make(chan struct{}),
 		onCloseFunc: func() error {
 			m.mu.Lock()
-			defer m.mu.Unlock()
 			m.count--
-			if m.count == 0 {
+			idle := m.count == 0
+			if idle {
 				close(m.doneCh)
 				m.pc.Close()
-				if m.onCloseFunc != nil {
-					onCloseFunc := m.onCloseFunc
-					m.onCloseFunc = nil
-					return onCloseFunc()
-				}
+				m.pc = nil
+			}
+			m.mu.Unlock()
+			// See multiStreamListener: the owner is notified without holding m.mu.
+			if idle && m.onCloseFunc != nil {
+				return m.onCloseFunc()
 			}
 			return nil
 		},
 	}, nil
+}
+
+// idle reports whether the shared listener currently has no users.
+func (m *multiPacketListener) idle() bool {
+	m.mu.Lock()
+	defer m.mu.Unlock()
+	return m.count == 0
 }
 
 // ListenerManager holds the state of shared listeners.
@@ -354,6 +371,15 @@ type listenerManager struct {
 	mu              sync.Mutex
 }
 
+// isIdle reports whether a shared listener has no users. Locks the listener: callers
+// may hold the manager lock but must not hold the listener's.
+func isIdle(ln any) bool {
+	if l, ok := ln.(interface{ idle() bool }); ok {
+		return l.idle()
+	}
+	return true
+}
+
 // NewListenerManager creates a new [ListenerManger].
 func NewListenerManager() ListenerManager {
 	return &listenerManager{
@@ -368,15 +394,22 @@ func (m *listenerManager) ListenStream(addr string) (StreamListener, error) {
 
 	streamLn, exists := m.streamListeners[addr]
 	if !exists {
-		streamLn = NewMultiStreamListener(
+		var newLn MultiListener[StreamListener]
+		newLn = NewMultiStreamListener(
 			addr,
 			func() error {
 				m.mu.Lock()
-				delete(m.streamListeners, addr)
-				m.mu.Unlock()
+				defer m.mu.Unlock()
+				// This runs after the listener released its own lock, so it may have
+				// been acquired again (or replaced) in the meantime: only forget it
+				// if it is still the registered listener and still has no users.
+				if cur, ok := m.streamListeners[addr]; ok && cur == newLn && isIdle(newLn) {
+					delete(m.streamListeners, addr)
+				}
 				return nil
 			},
 		)
+		streamLn = newLn
 		m.streamListeners[addr] = streamLn
 	}
 	ln, err := streamLn.Acquire()
@@ -392,15 +425,20 @@ func (m *listenerManager) ListenPacket(addr string) (net.PacketConn, error) {
 
 	packetLn, exists := m.packetListeners[addr]
 	if !exists {
-		packetLn = NewMultiPacketListener(
+		var newLn MultiListener[net.PacketConn]
+		newLn = NewMultiPacketListener(
 			addr,
 			func() error {
 				m.mu.Lock()
-				delete(m.packetListeners, addr)
-				m.mu.Unlock()
+				defer m.mu.Unlock()
+				// See ListenStream.
+				if cur, ok := m.packetListeners[addr]; ok && cur == newLn && isIdle(newLn) {
+					delete(m.packetListeners, addr)
+				}
 				return nil
 			},
 		)
+		packetLn = newLn
 		m.packetListeners[addr] = packetLn
 	}
 
